@@ -15,6 +15,7 @@ import (
 	"errors"
 	"fmt"
 	"io"
+	"regexp"
 	"sort"
 	"strings"
 	"testing"
@@ -59,8 +60,8 @@ type scen struct {
 	closerMgr bool   // RunnerCloserManager (else plain RunnerManager)
 	supply    byte   // how the runners reach the manager: 0 all through the constructor, 'a' all through Add before Run, 's' the first through the constructor, the rest through Add
 	runners   string // per runner, at once: 'n' return nil, 'e' an error, 'c' context.Canceled, 'w' a wrapped Canceled; wait for ctx then return: 'N' nil, 'E' an error, 'C' context.Canceled, 'W' a wrapped Canceled
-	closers   string // per closer registered before Run: 'n' nil, 'e' an error, 'p' parks until a harness thread releases it (then nil), 'f' returns only after the fatal function ran
-	grace     byte   // '-' unset (nil), 'g' generous (10s), 's' short (1s), 'x' 1s, exceeded by an 'f' closer
+	closers   string // per closer registered before Run: 'n' nil, 'e' a plain error, 'c' context.Canceled, 'w' a wrapped Canceled, 'd' context.DeadlineExceeded, 't' takes 1ms of model time (then nil), 'p' parks until a harness thread releases it (then nil), 'f' returns only after the fatal function ran
+	grace     byte   // '-' unset (nil), 'g' generous (10s), 's' short (1s), 'x' 1s, exceeded by an 'f' closer, '0' zero, 'm' -1ns, '1' 1ns
 	timeline  bool   // timeline mode: model time moves only when nothing else can run
 	close     byte   // '-' none, 'b' Close before Run, '1' one concurrent Close, '2' two concurrent, 'a' Close after Run returned
 	addCloser byte   // '-' none; a thread calls AddCloser during the run with a closer returning 'n' nil / 'e' an error
@@ -276,6 +277,8 @@ func mkExec(s scen) *mc.Exec {
 					release.Recv()
 				case 'f':
 					fatalCh.Recv()
+				case 't':
+					mc.TimeSleep(time.Millisecond)
 				}
 				c.ret, c.returned, c.retAt = tick(), true, mc.ModelNow()
 				return c.e
@@ -310,6 +313,15 @@ func mkExec(s scen) *mc.Exec {
 			case 'x', 's':
 				grace = graceShort
 				gp = &grace
+			case '0':
+				grace = 0
+				gp = &grace
+			case 'm':
+				grace = -time.Nanosecond
+				gp = &grace
+			case '1':
+				grace = time.Nanosecond
+				gp = &grace
 			}
 			cm = concurrency.NewRunnerCloserManager(nopLogger{}, gp, ctorFns...)
 			if gp != nil {
@@ -323,8 +335,18 @@ func mkExec(s scen) *mc.Exec {
 			}
 			for i := 0; i < len(s.closers); i++ {
 				c := &closerRec{name: fmt.Sprintf("closer%d(%c)", i, s.closers[i]), kind: s.closers[i]}
-				if c.kind == 'e' {
+				switch c.kind {
+				case 'e':
 					c.e = newErr(fmt.Sprintf("errCloser%d", i))
+				case 'c':
+					c.e = context.Canceled
+					names[c.e] = "context.Canceled"
+				case 'w':
+					c.e = fmt.Errorf("closer %d: %w", i, context.Canceled)
+					names[c.e] = fmt.Sprintf("wrappedCanceledCloser%d", i)
+				case 'd':
+					c.e = context.DeadlineExceeded
+					names[c.e] = "context.DeadlineExceeded"
 				}
 				closers = append(closers, c)
 				if err := cm.AddCloser(closerValue(c, i)); err != nil {
@@ -490,13 +512,19 @@ func mkExec(s scen) *mc.Exec {
 			if s.timeline {
 				// model time moved only while nothing could run: the action is
 				// legitimate only if a closer really was still busy
+				// (when expiry and completion coincide — every closer finished AT
+				// or after the deadline, e.g. grace <= 0 — either outcome is accepted)
 				busy := false
+				lastDone := lastRunnerAt
 				for _, c := range allClosers {
 					if c.invocations == 1 && (!c.returned || c.ret > fatalSeq) {
 						busy = true
 					}
+					if c.invocations == 1 && c.returned && c.retAt > lastDone {
+						lastDone = c.retAt
+					}
 				}
-				if !busy {
+				if !busy && lastDone < lastRunnerAt+grace {
 					return fmt.Errorf("[key=fatal-fired-though-closers-finished-in-time] fatal-shutdown action fired at model time %v although every closer had finished before the grace period (%v) elapsed: the shutdown sat idle until the deadline\n%d user closer(s)", fatalAt, grace, len(allClosers))
 				}
 			}
@@ -638,6 +666,18 @@ func mkExec(s scen) *mc.Exec {
 		}
 		// ---- timeline mode: Run and Close return once the closers have finished,
 		// not when the grace period ends ----
+		if s.timeline && s.grace != '-' && fatalCount == 0 {
+			// closers start at the model time the last runner returned (time only
+			// moves at quiescence); one that finished strictly later than
+			// start+grace outlasted the grace period
+			for _, c := range allClosers {
+				// (a grace period <= 0 expires when the closers start: a closer that
+				// finishes at that very model time coincides with the expiry)
+				if c.invocations == 1 && c.returned && c.retAt > lastRunnerAt+max(grace, 0) {
+					return fmt.Errorf("[key=fatal-not-fired] a closer outlasted the grace period but the fatal-shutdown action did not fire\n%s finished at model time %v, closers started at %v, grace period %v", c.name, c.retAt, lastRunnerAt, grace)
+				}
+			}
+		}
 		if s.timeline {
 			last := lastRunnerAt
 			for _, c := range allClosers {
@@ -720,7 +760,9 @@ func mkTypesExec() *mc.Exec {
 		bad := func(f string, a ...any) { problems = append(problems, fmt.Sprintf(f, a...)) }
 		runnerReturned := false
 		order := []string{}
-		errA, errB, errC := errors.New("errIoCloser"), errors.New("errCtxFunc"), errors.New("errFunc")
+		// closer errors are reported whatever they are (no Canceled filter)
+		errA, errB, errC := errors.New("errIoCloser"), error(context.Canceled), fmt.Errorf("func() error closer: %w", context.Canceled)
+		errD := error(context.DeadlineExceeded)
 		cm := concurrency.NewRunnerCloserManager(nopLogger{}, nil, func(context.Context) error {
 			runnerReturned = true
 			return nil
@@ -760,20 +802,24 @@ func mkTypesExec() *mc.Exec {
 			}
 		}
 		// several at once
-		if err := cm.AddCloser(func() { note("func()#2") }, func() error { note("func() error#2"); return nil }); err != nil {
+		if err := cm.AddCloser(func() { note("func()#2") }, func() error { note("func() error#2"); return errD }); err != nil {
 			bad("AddCloser(func(), func() error) returned %v", err)
 		}
 		err := cm.Run(context.Background())
 		var g []error
 		leaves(err, &g)
-		cnt := map[error]int{errA: 1, errB: 1, errC: 1}
+		cnt := map[error]int{errA: 1, errB: 1, errC: 1, errD: 1}
 		for _, x := range g {
 			cnt[x]--
 		}
-		for x, n := range cnt {
-			if n != 0 {
-				bad("Run returned %v: error %v appears %d times too few/many", err, x, n)
+		for _, x := range []error{errA, errB, errC, errD} { // fixed order: deterministic message
+			if n := cnt[x]; n != 0 {
+				bad("the error %q of a closer is missing from / extra in the joined result (%+d)", x.Error(), -n)
 			}
+			delete(cnt, x)
+		}
+		if len(cnt) > 0 {
+			bad("Run returned %d error(s) no closer returned", len(cnt))
 		}
 		for _, n := range []string{"io.Closer", "func(context.Context) error", "func() error", "func()", "func()#2", "func() error#2"} {
 			if inv[n] != 1 {
@@ -796,6 +842,8 @@ func mkTypesExec() *mc.Exec {
 	}
 	return &mc.Exec{Body: body, Check: check}
 }
+
+var closerKindsRe = regexp.MustCompile(`closers="[^"]*[cwdt][^"]*"`)
 
 func hasTrigger(s scen) bool {
 	return len(s.runners) == 0 || strings.ContainsAny(s.runners, "necw") || s.parent ||
@@ -978,17 +1026,37 @@ func scenarios() []hx.Scenario {
 	// the fatal action fires only if a closer is really still busy at the
 	// deadline — in particular with zero or one user closer
 	for _, t := range []string{"", "n", "e", "w", "N", "eE"} {
-		for _, cl := range []string{"", "n", "e", "ne", "p", "f", "ef", "nf"} {
-			for _, g := range []byte{'g', 's', 'x'} {
+		for _, cl := range []string{"", "n", "e", "ne", "p", "f", "ef", "nf", "t", "te", "nt"} {
+			for _, g := range []byte{'g', 's', 'x', '0', 'm', '1'} {
 				for _, cm := range []byte{'-', '1', '2', 'a'} {
 					for _, par := range []bool{false, true} {
 						sc := scen{closerMgr: true, runners: t, closers: cl, grace: g, close: cm, parent: par, timeline: true}
 						if !hasTrigger(sc) || (par && t != "N") {
 							continue
 						}
-						quick := in(t, "", "n", "N") && in(cl, "", "e", "f") && cm != '2'
+						quick := in(t, "", "n", "N") && in(cl, "", "e", "f", "t") && cm != '2'
+						if strings.ContainsRune("0m1", rune(g)) {
+							quick = in(t, "", "n") && in(cl, "", "e", "t", "te") && (cm == '-' || cm == '1')
+						}
 						add(sc, rcm, true, 3, 4, !quick)
 					}
+				}
+			}
+		}
+	}
+	// G7 closer results: every closer error is reported, whatever it is (the
+	// Canceled filter applies to runners only); position = closer type
+	// (0 io.Closer, 1 func(context.Context) error, 2 func() error)
+	for _, t := range []string{"", "n", "e", "c", "N"} {
+		for _, cl := range []string{"c", "w", "d", "nc", "nw", "nd", "nnc", "nnw", "nnd", "cw", "ed", "cc", "wnd"} {
+			for _, g := range []byte{'-', 'g'} {
+				for _, cm := range []byte{'-', '1', '2', 'a'} {
+					sc := scen{closerMgr: true, runners: t, closers: cl, grace: g, close: cm}
+					if !hasTrigger(sc) {
+						continue
+					}
+					quick := in(t, "n", "c") && len(cl) <= 3 && !in(cl, "cc", "ed") && g == '-' && (cm == '-' || cm == '1') && (t == "n" || len(cl) == 1)
+					add(sc, rcm, true, 3, 4, !quick)
 				}
 			}
 		}
@@ -1035,11 +1103,16 @@ func scenarios() []hx.Scenario {
 			}
 		}
 	}
-	out = append(out, hx.Scenario{
+	// the boundary families (closer error kinds, grace <= 0 / 1ns) come first
+	prio := func(n string) bool {
+		return strings.Contains(n, "grace=0") || strings.Contains(n, "grace=m") || strings.Contains(n, "grace=1") || closerKindsRe.MatchString(n)
+	}
+	sort.SliceStable(out, func(i, j int) bool { return prio(out[i].Name) && !prio(out[j].Name) })
+	out = append([]hx.Scenario{{
 		Name: "RunnerCloserManager closer types (sequential)", Class: "RunnerCloserManager",
 		Opts: mc.Options{Delay: true, Bound: 1, AutoClock: true, MaxSteps: 5000},
 		Mk:   mkTypesExec,
-	})
+	}}, out...)
 	return out
 }
 
